@@ -441,7 +441,7 @@ def judge_case(rec, case: dict) -> None:  # noqa: ANN001, C901, PLR0912, PLR0915
 
 # ------------------------------------------------------------------------------------------------
 def shards(tier: str, seed: int) -> list[dict]:
-    total = 1040 if tier == "quick" else 40000
+    total = 4160 if tier == "quick" else 40000
     nsh = 13 if tier == "quick" else 32
     return [{"kind": "random", "count": total // nsh} for _ in range(nsh)]
 
